@@ -1432,6 +1432,26 @@ def _run_recorder(scn: dict):
             outs.append(";".join(f"{d}:" + ".".join(map(str, file_state[d][0])) + "[" + ",".join(f"{a}={v}" for a, v in sorted(file_state[d][1].items())) + "]"
                                  for d in sorted(file_state) if file_state[d][0]) or "-")
             result.update(file=file_state)
+            # life cycle after close(): a further record() must not be accepted silently (its data can never reach
+            # the file); a second close() may raise or do nothing, but must not touch the file
+            post = {}
+            try:
+                rec.record("d0", np.array([999999], dtype=np.int64))
+                post["record"] = "accepted"
+            except Exception as e:  # noqa
+                post["record"] = "exc:" + type(e).__name__
+            try:
+                rec.close()
+                post["close"] = "accepted"
+            except Exception as e:  # noqa
+                post["close"] = "exc:" + type(e).__name__
+            after = {}
+            if os.path.exists(fn):
+                with h5py.File(fn, "r") as f:
+                    for k in f:
+                        after[names.get(k, k)] = [int(x) for x in f[k][:]]
+            post["file_unchanged"] = after == {k: v[0] for k, v in file_state.items()}
+            result["post"] = post
         except _Hang as e:
             result["error"] = "hang:" + str(e)
         finally:
@@ -1452,6 +1472,11 @@ def _recorder_oracle(r: dict):
         kind = r["error"].split(":")[0]
         return (f"recorder:{kind}", r["error"])
     file = r.get("file", {})
+    post = r.get("post") or {}
+    if post.get("record") == "accepted":
+        return ("recorder:record-after-close-accepted-silently", "record() after close() returned normally; the block is not in the file")
+    if post and not post.get("file_unchanged", True):
+        return ("recorder:file-changed-after-close", f"file differs after record()/close() on a closed recorder: {post}")
     for d, vals in sorted(r["recorded"].items()):
         got = file.get(d, ([], {}))[0]
         if got == vals:
@@ -1508,6 +1533,26 @@ def _sweep_rec_schedules(kmax: int, stride: int = 1):
     return out
 
 
+def _fixed_rec_schedules():
+    """multi-cycle schedules: attributes for an existing dataset in cycles where only another dataset gets data,
+    re-set later (a stale queued value must never come back); attributes before the dataset exists; same op twice"""
+    C = 70   # more writer lines than one full cycle
+    out = []
+    for keep in (False, True):
+        out.append({"keep_open": keep, "schedule": [
+            ["rec", 0, [1]], ["W", C], ["attr", 0, 0, 1], ["rec", 1, [2]], ["W", C], ["attr", 0, 0, 2], ["rec", 1, [3]], ["W", C],
+            ["rec", 1, [4]], ["W", C], ["rec", 1, [5]], ["W", C], ["rec", 1, [6]], ["W", C], ["close"]]})
+        out.append({"keep_open": keep, "schedule": [
+            ["attr", 2, 0, 7], ["attr", 2, 1, 8], ["rec", 0, [1]], ["W", C], ["attr", 2, 0, 9], ["rec", 0, [2]], ["W", C],
+            ["rec", 2, [3]], ["W", C], ["attr", 2, 1, 10], ["rec", 0, [4]], ["W", C], ["rec", 0, [5]], ["W", C], ["close"]]})
+        out.append({"keep_open": keep, "schedule": [
+            ["rec", 0, [1, 2]], ["rec", 0, [1, 2]], ["attr", 0, 0, 5], ["attr", 0, 0, 5], ["W", C], ["rec", 0, []], ["W", C],
+            ["attr", 0, 0, 6], ["close"]]})
+        out.append({"keep_open": keep, "schedule": [["close"]]})
+        out.append({"keep_open": keep, "schedule": [["attr", 0, 0, 1], ["W", C], ["W", C], ["close"]]})
+    return out
+
+
 def _shrink_rec(scn: dict, sig: str) -> dict:
     sched = list(scn["schedule"])
     i = 0
@@ -1523,7 +1568,7 @@ def _shrink_rec(scn: dict, sig: str) -> dict:
 
 def _section_recorder(ctx: Ctx, res: Result, n_random: int, use_model=True, kmax=70, stride=1):
     rng = ctx.rng
-    scns = _sweep_rec_schedules(kmax, stride) + [_gen_rec_schedule(rng) for _ in range(n_random)]
+    scns = _fixed_rec_schedules() + _sweep_rec_schedules(kmax, stride) + [_gen_rec_schedule(rng) for _ in range(n_random)]
     all_lines, all_outs, spans = [], [], []
     for i, scn in enumerate(scns):
         r = _run_recorder(scn)
@@ -1533,6 +1578,8 @@ def _section_recorder(ctx: Ctx, res: Result, n_random: int, use_model=True, kmax
         nsw = sum(1 for l in r["lines"] if l == "r swap")
         res.note_case(("rec", repr(scn)), nontrivial=nsw >= 1 and len(r["recorded"]) > 0)
         res.count("rec_scenarios")
+        for k_, v_ in (r.get("post") or {}).items():
+            res.count(f"rec_after_close_{k_}_{v_}")
         res.count("rec_flush_cycles", nsw)
         res.count("rec_scenarios_client_call_between_swap_and_flush",
                   1 if any(a == "r swap" and b.startswith(("r rec", "r attr")) for a, b in zip(r["lines"], r["lines"][1:])) else 0)
